@@ -10,6 +10,7 @@ arbitrary partial function: valid, converting or rejecting), all histories.
 import TraitsVerif.Lemmas.SeqLen
 import TraitsVerif.Generated.Mutators
 import TraitsVerif.Props.C05
+import TraitsVerif.Model.Nested
 namespace TraitsVerif.Props.C04
 open TraitsVerif TraitsVerif.Py TraitsVerif.Model
 variable {α : Type}
@@ -173,6 +174,159 @@ theorem C04_list_mutators_guarded :
 /-- `TraitListObject` derives from `TraitList`, so unguarded operations still validate items. -/
 theorem C04_listobject_base : Generated.traitListObjectBases = ["TraitList"] := by decide
 
+/-! ### Nested containers -/
+
+/-- The invariant for any element predicate `P` that every validator output
+satisfies (needed for nesting: an inner list mutated in place is no longer
+literally a validator output, but still satisfies the deep invariant). -/
+theorem C04_list_step_invP (c : LenCfg) (E : Env α) (hs : SortOk E) (P : α → Prop)
+    (hP : ∀ x, Valid E x → P x) (l : List α) (op : Op α) (o : Out α)
+    (hl : ∀ x ∈ l, P x) (hb : c.minlen ≤ l.length ∧ l.length ≤ c.maxlen)
+    (h : TraitListObject.step c E l op = .ok o) :
+    (∀ x ∈ o.items, P x) ∧ c.minlen ≤ o.items.length ∧ o.items.length ≤ c.maxlen := by
+  unfold TraitListObject.step at h
+  have hel : TraitList.step E l op = .ok o → ∀ x ∈ o.items, P x := by
+    intro h' x hx
+    rcases C04_elements E hs l op o h' x hx with h1 | h1
+    · exact hl x h1
+    · exact hP x h1
+  cases hg : guardLen l op with
+  | error e => simp [hg] at h
+  | ok g =>
+    cases g with
+    | none =>
+      simp only [hg] at h
+      refine ⟨hel h, ?_⟩
+      rw [C04_len_unchanged E hs l op o hg h]; exact hb
+    | some n =>
+      simp only [hg] at h
+      by_cases hok : c.ok n = true
+      · simp only [hok, if_true] at h
+        refine ⟨hel h, ?_⟩
+        have hlen := C04_len_exact E hs l op n o hg h
+        simp only [LenCfg.ok, decide_eq_true_eq] at hok
+        omega
+      · simp [hok] at h
+
+/-- The deep invariant of a nested list trait: at every level the length is
+within that level's bounds, and every leaf is an output of the scalar trait. -/
+def InvDeep : TT → CV → Prop
+  | .leaf v, .atom n => ∃ y, v y = .ok n
+  | .list c inner, .lst xs =>
+    c.minlen ≤ xs.length ∧ xs.length ≤ c.maxlen ∧ ∀ x ∈ xs, InvDeep inner x
+  | .leaf _, .lst _ => False
+  | .list _ _, .atom _ => False
+
+theorem mapExcept_ok {β γ : Type} {f : β → Except Exc γ} {xs : List β} {ys : List γ}
+    (h : mapExcept f xs = .ok ys) :
+    ys.length = xs.length ∧ ∀ y ∈ ys, ∃ x ∈ xs, f x = .ok y := by
+  induction xs generalizing ys with
+  | nil => simp only [mapExcept, Except.ok.injEq] at h; subst h; simp
+  | cons x xs ih =>
+    simp only [mapExcept] at h
+    cases hf : f x with
+    | error e => simp [hf] at h
+    | ok y =>
+      cases hr : mapExcept f xs with
+      | error e => simp [hf, hr] at h
+      | ok ys' =>
+        simp only [hf, hr, Except.ok.injEq] at h; subst h
+        obtain ⟨h1, h2⟩ := ih hr
+        refine ⟨by simp [h1], ?_⟩
+        intro z hz
+        rcases List.mem_cons.mp hz with rfl | hz
+        · exact ⟨x, by simp, hf⟩
+        · obtain ⟨w, hw, hfw⟩ := h2 z hz
+          exact ⟨w, List.mem_cons_of_mem _ hw, hfw⟩
+
+/-- **Whole-value assignment of a nested value** (and every inner list the
+item validator constructs) establishes the deep invariant. -/
+theorem C04_nested_validate (tt : TT) : ∀ x y, tt.validate x = .ok y → InvDeep tt y := by
+  induction tt with
+  | leaf v =>
+    intro x y h
+    cases x with
+    | atom n =>
+      simp only [TT.validate, Except.map] at h
+      split at h
+      · cases h
+      · rename_i m hm; simp only [Except.ok.injEq] at h; subst h; exact ⟨n, hm⟩
+    | lst xs => simp [TT.validate] at h
+  | list c inner ih =>
+    intro x y h
+    cases x with
+    | atom n => simp [TT.validate] at h
+    | lst xs =>
+      simp only [TT.validate] at h
+      by_cases hok : c.ok xs.length = true
+      · simp only [hok, if_true, Except.map] at h
+        split at h
+        · cases h
+        · rename_i ys hys
+          simp only [Except.ok.injEq] at h; subst h
+          obtain ⟨h1, h2⟩ := mapExcept_ok hys
+          simp only [LenCfg.ok, decide_eq_true_eq] at hok
+          refine ⟨by omega, by omega, ?_⟩
+          intro z hz
+          obtain ⟨w, _, hw⟩ := h2 z hz
+          exact ih w z hw
+      · simp [hok] at h
+
+/-- **Nested containers**: a mutator applied to a list at any depth of a value
+satisfying the deep invariant leaves a value satisfying it (structural
+induction on the path). -/
+theorem C04_nested (eq : CV → CV → Bool) (sort : List CV → List CV)
+    (hsort : ∀ l, (sort l).Perm l) (path : List Nat) :
+    ∀ (tt : TT) (op : Op CV) (cv cv' : CV), InvDeep tt cv →
+      stepAt eq sort tt path op cv = some (.ok cv') → InvDeep tt cv' := by
+  induction path with
+  | nil =>
+    intro tt op cv cv' hinv h
+    cases tt with
+    | leaf v => cases cv <;> simp [stepAt] at h
+    | list c inner =>
+      cases cv with
+      | atom n => simp [stepAt] at h
+      | lst xs =>
+        simp only [stepAt, Option.some.injEq, Except.map] at h
+        split at h
+        · cases h
+        · rename_i o ho
+          simp only [Except.ok.injEq] at h; subst h
+          obtain ⟨hb1, hb2, hel⟩ := hinv
+          have := C04_list_step_invP c (inner.env eq sort) (fun l => hsort l) (InvDeep inner)
+            (by rintro x ⟨k, y, hy⟩; exact C04_nested_validate inner y x hy)
+            xs op o hel ⟨hb1, hb2⟩ ho
+          exact ⟨this.2.1, this.2.2, this.1⟩
+  | cons i path ih =>
+    intro tt op cv cv' hinv h
+    cases tt with
+    | leaf v => cases cv <;> simp [stepAt] at h
+    | list c inner =>
+      cases cv with
+      | atom n => simp [stepAt] at h
+      | lst xs =>
+        simp only [stepAt] at h
+        cases hx : xs[i]? with
+        | none => simp [hx] at h
+        | some x =>
+          simp only [hx] at h
+          cases hr : stepAt eq sort inner path op x with
+          | none => simp [hr] at h
+          | some r =>
+            cases r with
+            | error e => simp [hr] at h
+            | ok x' =>
+              simp only [hr, Option.some.injEq, Except.ok.injEq] at h; subst h
+              obtain ⟨hb1, hb2, hel⟩ := hinv
+              have hxm : x ∈ xs := List.mem_of_getElem? hx
+              have hx' := ih inner op x x' (hel x hxm) hr
+              refine ⟨by simpa using hb1, by simpa using hb2, ?_⟩
+              intro z hz
+              rcases List.mem_or_eq_of_mem_set hz with h1 | h1
+              · exact hel z h1
+              · exact h1 ▸ hx'
+
 /-! ### Non-vacuity -/
 
 def cfg13 : LenCfg := ⟨1, 3⟩
@@ -195,5 +349,27 @@ example :
     ∧ (TraitListObject.step cfg13 rejNeg [1] (.pop 0)).toOption.isNone = true
     ∧ (TraitListObject.step cfg13 rejNeg [1] (.setIdx 0 (-5))).toOption.isNone = true := by
   decide
+
+/-- Nested: `List(List(Range(low=0), maxlen=2), maxlen=3)`; appending a third
+element to an inner list is rejected, to the outer list accepted. -/
+def ttNested : TT :=
+  .list ⟨0, 3⟩ (.list ⟨0, 2⟩ (.leaf (fun x => if x < 0 then .error .traitError else .ok x)))
+
+example :
+    InvDeep ttNested (.lst [.lst [.atom 1], .lst [.atom 2, .atom 3]]) := by
+  refine ⟨by decide, by decide, ?_⟩
+  intro x hx
+  have : x = .lst [.atom 1] ∨ x = .lst [.atom 2, .atom 3] := by simpa using hx
+  rcases this with rfl | rfl
+  · refine ⟨by decide, by decide, ?_⟩
+    intro y hy
+    have : y = .atom 1 := by simpa using hy
+    subst this; exact ⟨1, by decide⟩
+  · refine ⟨by decide, by decide, ?_⟩
+    intro y hy
+    have : y = .atom 2 ∨ y = .atom 3 := by simpa using hy
+    rcases this with rfl | rfl
+    · exact ⟨2, by decide⟩
+    · exact ⟨3, by decide⟩
 
 end TraitsVerif.Props.C04
